@@ -613,6 +613,32 @@ def enumerate_inproc(js1, js2, r, l2_stride=1):
                 g = fs2.fired
                 what2 = f"crash {g['action']} call#{g['i']} {g['name']}({','.join(g['paths'])}) {g['extra']}".strip()
                 t.level2(what1, k, scan1, what2, k2, scan_dir(work2, refs))
+        if js2 is not None and js1["nsteps"] >= 1:
+            # a directory as a crash of the OLD rotate-to-backup protocol (or any foreign tool) leaves it, which dump_dict
+            # explicitly caters for ("restarted in a directory that holds a partial file left by an earlier crash"): the complete
+            # last result as <job>.npz.bak next to a truncated <job>.npz.  The restarted job must never lose the only complete file.
+            good = os.path.join(d, JOB + ".npz")
+            if os.path.isfile(good):
+                with _real_open(good, "rb") as fh:
+                    data = fh.read()
+                snap = {JOB + ".npz.bak": data, JOB + ".npz": data[: max(1, len(data) // 2)]}
+                restore(snap, work)
+                scan1 = scan_dir(work, refs)
+                what1 = "legacy left-over: complete .npz.bak + truncated .npz"
+                k = js1["nsteps"] + 1
+                restore(snap, work2)
+                crashed, _, fsr = run_inproc(js2, work2, 2, None)
+                assert not crashed
+                final_state_check(r, scan_dir(work2, refs), 2, js2["nsteps"], f"restart after [{what1}]")
+                for p2 in crash_points(fsr.ops, max_step=2):
+                    restore(snap, work2)
+                    crashed, k2, fs2 = run_inproc(js2, work2, 2, p2)
+                    if not crashed:
+                        raise RuntimeError(f"restart fault {p2} did not fire")
+                    g = fs2.fired
+                    what2 = f"crash {g['action']} call#{g['i']} {g['name']}({','.join(g['paths'])}) {g['extra']}".strip()
+                    t.level2(what1, max(k, 2), scan1, what2, k2, scan_dir(work2, refs))
+                t.n["legacy_leftover"] = t.n.get("legacy_leftover", 0) + 1
     finally:
         shutil.rmtree(base, ignore_errors=True)
     return t
